@@ -3,7 +3,7 @@
    (factor shapes, weights, core, and the .shape / .rank attributes recomputed by the wrapper
    constructors) exactly.  Oracle answers (brentq / quadratic root) come with the case and their
    defining equation is re-evaluated here in exact arithmetic. *)
-From Coq Require Import List Arith ZArith QArith Qabs Bool.
+From Coq Require Import List Arith NArith ZArith QArith Qabs Bool.
 From TLV Require Import Base.Shape Base.Tensor Model.Structure Corr.Common.
 Import ListNotations.
 Local Open Scope nat_scope.
@@ -75,7 +75,8 @@ Definition run (o : op) : res (list (list nat)) :=
 Fixpoint shapes_eqb (a b : list (list nat)) : bool :=
   match a, b with [], [] => true | x :: a', y :: b' => nat_list_eqb x y && shapes_eqb a' b' | _, _ => false end.
 
-Definition case := (nat * op * res (list (list nat)))%type.
+(* the case identifier is a binary number: a unary literal of a few thousand per case dominated the shard time *)
+Definition case := (N * op * res (list (list nat)))%type.
 Definition agree (c : case) : bool :=
   let '(_, o, expected) := c in
   match run o, expected with
@@ -83,5 +84,5 @@ Definition agree (c : case) : bool :=
   | Ok a, Ok b => oracle_ok o && shapes_eqb a b
   | _, _ => false
   end.
-Definition ident (c : case) : nat := let '(i, _, _) := c in i.
+Definition ident (c : case) : nat := let '(i, _, _) := c in N.to_nat i.
 Definition failing := failing_ids agree ident.
